@@ -16,9 +16,17 @@
 (*                       fill a holder; it does not go through AppendValue)                *)
 (*   Delete(n)           del holder[n]                                                     *)
 (*   List                GetSeriesList()  (a query: no table, nothing stored changes)      *)
-(*   Solve(vars, h)      EquationSolver.SolveEquation() succeeded with horizon h over the  *)
-(*                       stored names and vars: every series, and the time axes k and t    *)
-(*                       the solver always adds, then have h+1 values                      *)
+(*   StateHorizon(place, h)  the user states the horizon h: place "block" = a MaxTime line  *)
+(*                       in the equation text, "model" = Model.MaxTime (which Model.main()   *)
+(*                       writes as the MaxTime line of the block it generates), "solver" =   *)
+(*                       EquationSolver.MaxTime set on the solver object before the text is  *)
+(*                       parsed.  The horizon of the solve is the one stated on the solver   *)
+(*                       if any (0 IS a horizon: the initial period only), else the one of   *)
+(*                       the block, else 0 (Effective).                                      *)
+(*   Solve(vars)         EquationSolver.SolveEquation() succeeded over the stored names and  *)
+(*                       vars: every series, and the time axes k and t the solver always     *)
+(*                       adds, then have h+1 values, h the STATED horizon - not whatever     *)
+(*                       horizon the solver ended up using                                   *)
 (*   SolveFailed(obs)    SolveEquation() raised; the series are left as observed           *)
 (*   Render(fmt)         GenerateCSVtext(<format string of class fmt>)                     *)
 (* A mutation invalidates the last table (table = NoTable: it described the holder as it   *)
@@ -37,7 +45,7 @@ CONSTANTS
     Names,          \* names usable in Put (each a sequence of code points)
     MaxLen,         \* Put lengths are 0..MaxLen
     MaxNames,       \* bound on the number of stored series
-    Horizons,       \* horizons usable in Solve
+    Horizons,       \* horizons usable in StateHorizon
     FormatSeq,      \* sequence of format classes usable in Render
     MaxOps          \* bound on the length of a history (Next only)
 
@@ -137,11 +145,17 @@ VARIABLES phase,     \* "build" | "run" (the holder is a solver's, after a solve
           holder,    \* [stored name -> [len, kind]]
           solved,    \* [is, horizon]: SolveEquation() succeeded with this horizon and the holder is untouched since
           table,     \* the table of the last Render, NoTable once the holder has been changed
+          stated,    \* [block, solver]: where a horizon has been stated, each [is, h]
           hist       \* history of calls (see Op)
 
-vars == << phase, holder, solved, table, hist >>
+vars == << phase, holder, solved, table, stated, hist >>
 
-Op(op, n, len, kind, fmt, h) == [op |-> op, name |-> n, len |-> len, kind |-> kind, fmt |-> fmt, h |-> h]
+Op(op, n, len, kind, fmt, h) ==
+    [op |-> op, name |-> n, len |-> len, kind |-> kind, fmt |-> fmt, h |-> h, place |-> ""]
+Places == {"block", "model", "solver"}
+NoHorizon == [is |-> FALSE, h |-> 0]
+Unstated == [block |-> NoHorizon, solver |-> NoHorizon]
+Effective(st) == IF st.solver.is THEN st.solver.h ELSE IF st.block.is THEN st.block.h ELSE 0
 MutOps == {"put", "store", "del", "solve", "solvefail"}
 ObsOps == {"list", "render"}
 
@@ -149,7 +163,7 @@ NotSolved == [is |-> FALSE, horizon |-> 0]
 EmptyHolder == [n \in {} |-> [len |-> 0, kind |-> "int"]]
 
 Init == /\ phase = "build" /\ holder = EmptyHolder /\ solved = NotSolved
-        /\ table = NoTable /\ hist = << >>
+        /\ table = NoTable /\ stated = Unstated /\ hist = << >>
 
 Put(n, len, kind) ==
     /\ n \in DOMAIN holder => len > holder[n].len
@@ -157,35 +171,43 @@ Put(n, len, kind) ==
     /\ holder' = PutOp(holder, n, len, kind)
     /\ table' = NoTable /\ solved' = NotSolved
     /\ hist' = Append(hist, Op("put", n, len, kind, "", 0))
-    /\ UNCHANGED phase
+    /\ UNCHANGED << phase, stated >>
 
 Store(n, len, kind) ==
     /\ Cardinality(DOMAIN holder \cup {n}) <= MaxNames
     /\ holder' = StoreOp(holder, n, len, kind)
     /\ table' = NoTable /\ solved' = NotSolved
     /\ hist' = Append(hist, Op("store", n, len, kind, "", 0))
-    /\ UNCHANGED phase
+    /\ UNCHANGED << phase, stated >>
 
 Delete(n) ==
     /\ n \in DOMAIN holder
     /\ holder' = DeleteOp(holder, n)
     /\ table' = NoTable /\ solved' = NotSolved
     /\ hist' = Append(hist, Op("del", n, 0, "int", "", 0))
-    /\ UNCHANGED phase
+    /\ UNCHANGED << phase, stated >>
 
 List ==
     /\ hist' = Append(hist, Op("list", << >>, 0, "int", "", 0))
+    /\ UNCHANGED << phase, holder, solved, table, stated >>
+
+StateHorizon(place, h) ==
+    /\ phase = "build"
+    /\ stated' = IF place = "solver" THEN [stated EXCEPT !.solver = [is |-> TRUE, h |-> h]]
+                                     ELSE [stated EXCEPT !.block = [is |-> TRUE, h |-> h]]
+    /\ hist' = Append(hist, [Op("horizon", << >>, 0, "int", "", h) EXCEPT !.place = place])
     /\ UNCHANGED << phase, holder, solved, table >>
 
 (* SetInitialConditions gives every variable one value; each step appends one to every series *)
-Solve(vs, h) ==
+Solve(vs) ==
     /\ phase = "build"
     /\ \A n \in DOMAIN holder : holder[n].len = 1
-    /\ holder' = SolveOp(holder, vs, h)
-    /\ solved' = [is |-> TRUE, horizon |-> h]
+    /\ holder' = SolveOp(holder, vs, Effective(stated))
+    /\ solved' = [is |-> TRUE, horizon |-> Effective(stated)]
     /\ phase' = "run"
     /\ table' = NoTable
-    /\ hist' = Append(hist, Op("solve", << >>, 0, "num", "", h))
+    /\ hist' = Append(hist, Op("solve", << >>, 0, "num", "", Effective(stated)))
+    /\ UNCHANGED stated
 
 SolveFailed(obs) ==
     /\ phase = "build"
@@ -194,18 +216,20 @@ SolveFailed(obs) ==
     /\ phase' = "run"
     /\ table' = NoTable
     /\ hist' = Append(hist, Op("solvefail", << >>, 0, "num", "", 0))
+    /\ UNCHANGED stated
 
 Render(fmt) ==
     /\ fmt \in IntOnlyFormats => AllInt(holder)
     /\ table' = RenderOp(holder, fmt)
     /\ hist' = Append(hist, Op("render", << >>, 0, "int", fmt, 0))
-    /\ UNCHANGED << phase, holder, solved >>
+    /\ UNCHANGED << phase, holder, solved, stated >>
 
 Next == /\ Len(hist) < MaxOps
         /\ \/ \E n \in Names, len \in 0..MaxLen, kind \in Kinds : Put(n, len, kind) \/ Store(n, len, kind)
            \/ \E n \in Names : Delete(n)
            \/ List
-           \/ \E h \in Horizons : Solve({}, h)
+           \/ \E h \in Horizons, pl \in Places : StateHorizon(pl, h)
+           \/ Solve({})
            \/ \E i \in 1..Len(FormatSeq) : Render(FormatSeq[i])
 
 Spec == Init /\ [][Next]_vars
@@ -224,5 +248,6 @@ TypeOK == /\ phase \in {"build", "run"}
           /\ \A n \in DOMAIN holder : holder[n].len \in Nat /\ holder[n].kind \in Kinds
           /\ Cardinality(DOMAIN holder) <= MaxNames + 2
           /\ Len(hist) <= MaxOps
-          /\ table.done => hist # << >> /\ hist[Len(hist)].op \in ObsOps
+          /\ solved.is => solved.horizon = Effective(stated)
+          /\ table.done => hist # << >> /\ hist[Len(hist)].op \in ObsOps \cup {"horizon"}
 =============================================================================
